@@ -228,7 +228,14 @@ func c20ApplyDirect(app *simapp.SimApp, ctx sdk.Context, e c20Entry) error {
 		if err != nil {
 			return err
 		}
-		ck.RegisterRelayers(ctx, string(e.Data["name"]), []string{string(e.Data["relayer"])})
+		rl := []string{string(e.Data["relayer"])}
+		if bz, ok := e.Data["relayers"]; ok {
+			rl = nil
+			if err := json.Unmarshal(bz, &rl); err != nil {
+				return err
+			}
+		}
+		ck.RegisterRelayers(ctx, string(e.Data["name"]), rl)
 		return ck.CreateClient(ctx, string(e.Data["name"]), cs, cons)
 	case "setrules":
 		var rules []string
@@ -368,11 +375,19 @@ func c20EvmHistory(t *testing.T, nBsc, nEth int) (accepted, rejected int) {
 	create := func(name string, cs exported.ClientState, cons exported.ConsensusState) {
 		h.coord.UpdateTimeForChain(c)
 		ctx := c.GetContext()
-		c.App.TIBCKeeper.ClientKeeper.RegisterRelayers(ctx, name, []string{relayer})
+		// a relayer list with several distinct addresses and a repeated one (legal: only address validity is
+		// checked): the stored record, hence the application hash, must not depend on anything but the list
+		rl := []string{relayer}
+		for k := 1; k < len(c.SenderAccounts) && k <= 6; k++ {
+			rl = append(rl, c.SenderAccounts[k].SenderAccount.GetAddress().String())
+		}
+		rl = append(rl, relayer)
+		c.App.TIBCKeeper.ClientKeeper.RegisterRelayers(ctx, name, rl)
 		if err := c.App.TIBCKeeper.ClientKeeper.CreateClient(ctx, name, cs, cons); err != nil {
 			t.Fatal(err)
 		}
-		callDirect(c, "create", map[string][]byte{"name": []byte(name), "relayer": []byte(relayer),
+		rlb, _ := json.Marshal(rl)
+		callDirect(c, "create", map[string][]byte{"name": []byte(name), "relayer": []byte(relayer), "relayers": rlb,
 			"client": clienttypes.MustMarshalClientState(c.App.AppCodec(), cs), "cons": clienttypes.MustMarshalConsensusState(c.App.AppCodec(), cons)})
 		h.commit(0)
 	}
